@@ -76,6 +76,10 @@ def configs(tier: str):
     # id / sequence number widths
     for ws, wd, sw, mode in itertools.product((1, 2, 4, 8), (1, 2, 4, 8), (1, 2, 4), ("ack", "unack")):
         add(idw_s=ws, idw_d=wd, seqw=sw, mode=mode, closure=True, size=L + 1)
+    # entity ids and sequence numbers at the top of their width (second transaction wraps nowhere: top-1, top)
+    for ws, wd, sw, (mode, closure) in itertools.product((1, 2, 8), (1, 2, 8), (1, 2, 4), (("ack", False), ("unack", True))):
+        add(idw_s=ws, idw_d=wd, seqw=sw, idv_s=(1 << (8 * ws)) - 1, idv_d=(1 << (8 * wd)) - 2, seq0=(1 << (8 * sw)) - 2, mode=mode, closure=closure,
+            size=L + 1, tx2=dict(req_mode="ack" if mode == "unack" else "unack", req_closure=True))
     # segment lengths: configured 1,2,5 and derived from the maximum packet length
     for seg, mode, size in itertools.product((1, 2, 5), ("ack", "unack"), (0, 1, 5, 6)):
         if seg == 1 and size > 5:
